@@ -74,15 +74,18 @@ structure GInv (ts : List Task) (c0 : Conn) (s : SState) : Prop where
   strict : ∀ p ∈ s.log, p.2 = .raised .duplicateSeqNo → flagOf ts p.1 = true
   tasks : ∀ j pt k, s.tasks[j]? = some (.live pt k) → ∀ c1, Ok (flagOf ts j) c1 (k c1)
 
-theorem countGhost_zero {g : List Ghost} (h : countGhost .rewind g = 0) : noRewind g = true := by
+theorem countGhost_zero_notMem {g : List Ghost} {x : Ghost} (h : countGhost x g = 0) : x ∉ g := by
   unfold countGhost at h
-  unfold noRewind
-  simp only [Bool.not_eq_true', List.contains_eq_mem, decide_eq_false_iff_not]
   intro hm
-  have : (g.filter (· == Ghost.rewind)).length > 0 := by
-    apply List.length_pos_of_mem (a := Ghost.rewind)
+  have : (g.filter (· == x)).length > 0 := by
+    apply List.length_pos_of_mem (a := x)
     simp [List.mem_filter, hm]
   omega
+
+theorem countGhost_zero {g : List Ghost} (h : countGhost .rewind g = 0) (h' : countGhost .waive g = 0) :
+    noRewind g = true := by
+  unfold noRewind
+  simp [List.contains_eq_mem, countGhost_zero_notMem h, countGhost_zero_notMem h']
 
 theorem errEff_eq_pend (r : Except Exc Unit) : errEff r = pend r := by cases r <;> rfl
 
@@ -94,15 +97,16 @@ theorem set_self_of_some {l : List TState} {j : Nat} {x y : TState} (h : l[j]? =
 /-- one segment of task `j` keeps the invariant (or rewinds) -/
 theorem runTask_inv {ts : List Task} {c0 : Conn} {s : SState} {j : Nat} {pt : Option YieldPoint}
     {k : Conn → Res Unit} (h : GInv ts c0 s) (hk : s.tasks[j]? = some (.live pt k))
-    (ho : (s.runTask j k).opened = 0) : GInv ts c0 (s.runTask j k) := by
+    (ho : (s.runTask j k).blocked = 0) : GInv ts c0 (s.runTask j k) := by
   have hok := h.tasks j pt k hk s.conn
   have hJ := h.seg.inv
-  unfold SState.runTask at ho ⊢
+  unfold SState.blocked SState.runTask at ho
+  unfold SState.runTask
   cases hr : k s.conn with
   | done c e g r =>
     rw [hr] at hok ho
     simp only at ho ⊢
-    have hg : noRewind g = true := countGhost_zero (by omega)
+    have hg : noRewind g = true := countGhost_zero (by omega) (by omega)
     have hs := hok hg hJ
     refine ⟨?_, ?_, ?_⟩
     · simp only [SState.effects, List.map_append, List.map_map, Function.comp_def, List.map_id', errEff_eq_pend]
@@ -129,7 +133,7 @@ theorem runTask_inv {ts : List Task} {c0 : Conn} {s : SState} {j : Nat} {pt : Op
   | yield c e g pt2 k2 =>
     rw [hr] at hok ho
     simp only at ho ⊢
-    have hg : noRewind g = true := countGhost_zero (by omega)
+    have hg : noRewind g = true := countGhost_zero (by omega) (by omega)
     have hs := hok.1 hg hJ
     refine ⟨?_, ?_, ?_⟩
     · simp only [SState.effects, List.map_append, List.map_map, Function.comp_def, List.map_id']
@@ -156,11 +160,11 @@ theorem runTask_inv {ts : List Task} {c0 : Conn} {s : SState} {j : Nat} {pt : Op
       · rw [List.getElem?_set_ne hjj] at hj'
         exact h.tasks j' pt' k' hj' c1
 
-theorem opened_mono_runTask (s : SState) (j : Nat) (k : Conn → Res Unit) : s.opened ≤ (s.runTask j k).opened := by
-  unfold SState.runTask
-  split <;> exact Nat.le_add_right _ _
+theorem opened_mono_runTask (s : SState) (j : Nat) (k : Conn → Res Unit) : s.blocked ≤ (s.runTask j k).blocked := by
+  unfold SState.blocked SState.runTask
+  split <;> simp only <;> omega
 
-theorem opened_mono_step (s : SState) (l : Letter) : s.opened ≤ (s.step l).opened := by
+theorem opened_mono_step (s : SState) (l : Letter) : s.blocked ≤ (s.step l).blocked := by
   cases l with
   | pause => exact Nat.le_refl _
   | resume => exact Nat.le_refl _
@@ -175,7 +179,7 @@ theorem opened_mono_step (s : SState) (l : Letter) : s.opened ≤ (s.step l).ope
     · exact Nat.le_refl _
 
 theorem step_inv {ts : List Task} {c0 : Conn} {s : SState} (l : Letter) (h : GInv ts c0 s)
-    (ho : (s.step l).opened = 0) : GInv ts c0 (s.step l) := by
+    (ho : (s.step l).blocked = 0) : GInv ts c0 (s.step l) := by
   cases l with
   | pause => exact ⟨h.seg, h.strict, h.tasks⟩
   | resume => exact ⟨h.seg, h.strict, h.tasks⟩
@@ -198,7 +202,7 @@ theorem step_inv {ts : List Task} {c0 : Conn} {s : SState} (l : Letter) (h : GIn
         exact runTask_inv h hk ho
     · exact h
 
-theorem opened_mono_exec (s : SState) (sched : List Letter) : s.opened ≤ (s.exec sched).opened := by
+theorem opened_mono_exec (s : SState) (sched : List Letter) : s.blocked ≤ (s.exec sched).blocked := by
   induction sched generalizing s with
   | nil => exact Nat.le_refl _
   | cons l r ih =>
@@ -207,11 +211,11 @@ theorem opened_mono_exec (s : SState) (sched : List Letter) : s.opened ≤ (s.ex
 /-- **induction over the schedule**: the invariant holds after every schedule, of any length, over any
 number of tasks, in which no `_process_resend` has rewound the outbound counter -/
 theorem exec_inv {ts : List Task} {c0 : Conn} {s : SState} (sched : List Letter) (h : GInv ts c0 s)
-    (ho : (s.exec sched).opened = 0) : GInv ts c0 (s.exec sched) := by
+    (ho : (s.exec sched).blocked = 0) : GInv ts c0 (s.exec sched) := by
   induction sched generalizing s with
   | nil => exact h
   | cons l r ih =>
-    have h1 : (s.step l).opened = 0 := by
+    have h1 : (s.step l).blocked = 0 := by
       have := opened_mono_exec (s.step l) r
       have e : (s.exec (l :: r)) = (s.step l).exec r := rfl
       rw [e] at ho
